@@ -50,6 +50,9 @@ type ProviderSpec struct {
 	// to customise a provider) with a verifier whose SubjectCheck lets iss != sub through (delegation). The issuer must still
 	// be the client whose key signed the assertion, and the authenticated client is that issuer.
 	LaxSubject bool `json:"lax_subject,omitempty"`
+	// WrapStorage (not part of the serialised case): lets a check put its own wrapper around the capability-shaped storage
+	// before the provider is built (the wrapper must keep the optional interfaces it wants the library to detect).
+	WrapStorage func(op.Storage) op.Storage `json:"-"`
 }
 
 // laxSubjectProvider is an op.Provider whose JWT-profile verifier accepts assertions with sub != iss.
@@ -207,7 +210,11 @@ func Build(spec ProviderSpec, store *Store) (*SUT, error) {
 		issuer = op.StaticIssuer(spec.Issuer)
 	}
 	defer RestoreDefaultEndpoints()
-	p, err := op.NewProvider(cfg, store.Shaped(spec.Caps), issuer, opts...)
+	stg := store.Shaped(spec.Caps)
+	if spec.WrapStorage != nil {
+		stg = spec.WrapStorage(stg)
+	}
+	p, err := op.NewProvider(cfg, stg, issuer, opts...)
 	if err != nil {
 		return nil, err
 	}
